@@ -87,10 +87,9 @@ GetStatus == << <<OpGetStatus, 0>> >>          \* also the wake-up access after 
 \* 64-bit arithmetic (sx126x_convert_freq_in_hz_to_pll_step): with the scaled step
 \* 32e6 / 2^11 = 15625 Hz,   word = (f div 15625) * 2^14 + round((f mod 15625) * 2^14 / 15625).
 PllStepScaled126 == 15625
-PllWord126(f) ==
-    LET int == f \div PllStepScaled126
-        frac == f % PllStepScaled126
-    IN int * 16384 + ((frac * 16384 + (PllStepScaled126 \div 2)) \div PllStepScaled126)
+\* (the text lives in PllCore.tla so that Apalache - PllApa.tla - checks the very same definition for every frequency)
+Pll126 == INSTANCE PllCore
+PllWord126(f) == Pll126!Word126(f)
 SetRfFrequencyWord(word) == <<OpSetRfFrequency>> \o BE32(word)
 SetRfFrequency(f) == << SetRfFrequencyWord(PllWord126(f)) >>
 
